@@ -9,7 +9,9 @@ import (
 )
 
 // VerifLastBatch returns the first n entries epoll_wait handed to the last poll. Verification harness only.
-func (ioc *IO) VerifLastBatch(n int) []internal.VerifEvent { return internal.VerifEvents(ioc.poller, n) }
+func (ioc *IO) VerifLastBatch(n int) []internal.VerifEvent {
+	return internal.VerifEvents(ioc.poller, n)
+}
 
 // VerifWakerFd returns the descriptor of the wake-up eventfd.
 func (ioc *IO) VerifWakerFd() int { return internal.VerifWakerFd(ioc.poller) }
